@@ -1,6 +1,7 @@
 import PyaModel.Proofs.C06
 import PyaModel.Generated.ClassTable
 import PyaModel.Props.C03
+import PyaModel.Generated.AnnotCtx
 /-!
 # Props/C06 — call checking: arguments against parameter types, result type, type variables
 
@@ -21,6 +22,33 @@ open Pya
 /-- Obligation over the regenerated class table: `tuple` / `dict` seen as themselves pass their
 parameters through and `str` accepts `str` (what the variadic-parameter checks rely on). -/
 theorem liveCallTable_ok : callTableOk liveTable = true := by decide +kernel
+
+/-- Obligation over the list regenerated from the live `pyanalyze/arg_spec.py`: every place that
+converts an annotation (`type_from_runtime`) or builds an `AnnotationsContext` is a registered one,
+and the two sites converting the parameter and return annotations of a runtime signature are given
+a context that carries the function's globals — so a context built without globals (which turns an
+embedded forward reference into `Any`) is noticed. -/
+theorem annotation_contexts_registered :
+    annotSitesOk liveAnnotCtxCtors liveTypeFromRuntime = true := by decide
+
+/-- **The verdict depends on the resolved types only.** Two headers whose annotations are written
+differently (unquoted, quoted, partially quoted, forward references, aliases, string-bounded type
+variables, `from __future__ import annotations`) but denote the same types get the same outcome —
+verdict, inferred type and solution — for every call. (Trivial in the model, where the declared
+type is a parameter; the `spelling` stream of the harness compares the implementation's verdicts
+across all spellings and callee forms with each other and with this outcome.) -/
+theorem call_verdict_of_resolved (tbl : ClassTable) (s₁ s₂ : SpelledSig)
+    (h : s₁.resolve = s₂.resolve) (c : VCall) :
+    checkCall tbl s₁.resolve.asig c = checkCall tbl s₂.resolve.asig c := by rw [h]
+
+/-- every spelling of a parameter list denotes the header with the plain spelling -/
+theorem spelling_irrelevant (t : Ty) (n : Nat) :
+    (Spell.quoted t).resolve = (Spell.plain t).resolve ∧
+    (Spell.partialQ t).resolve = (Spell.plain t).resolve ∧
+    (Spell.late t).resolve = (Spell.plain t).resolve ∧
+    (Spell.alias n t).resolve = (Spell.plain t).resolve ∧
+    (Spell.strTv t).resolve = (Spell.plain t).resolve ∧
+    (Spell.future t).resolve = (Spell.plain t).resolve := ⟨rfl, rfl, rfl, rfl, rfl, rfl⟩
 
 /-! ## First clause: diagnosed ⇔ some argument is not a member of its parameter's declared type -/
 
